@@ -351,7 +351,8 @@ inline const std::vector<RawEnt> & raw_alphabet()
 {
   static const std::vector<RawEnt> a = {
     {0, 0, {0, 0, 0}, 0},                      // zero
-    {1e-5, 0, {0.6e-5, -0.8e-5, 0}, 0},        // 1e-5-norm rotation and translation
+    {1e-8, 0, {0.6e-8, -0.8e-8, 0}, 0},        // 1e-8-norm rotation and translation (below any plausible 'is zero' threshold on |v|^2;
+                                               // the 1e-5 small-angle region is still entered by the entries with a 1e-5 part below)
     {2.5, 1, {-1, 2, 0.5}, 0},                 // O(1) rotation (2.5 rad) and translation
     {-1.7, 0, {0.3, -0.4, 1.2}, 0},            // O(1), opposite sense about the first axis
     {1.0, 2, {0, 0, 0}, 0},                    // pure rotation about a principal axis
